@@ -90,7 +90,7 @@ package scheduler
 //@   at loop 1 back: assert (ent.Container.State == arvados.ContainerStateComplete || ent.Container.State == arvados.ContainerStateCancelled || ent.Container.State == arvados.ContainerStateQueued) && running ==> nkill == nkill0 + 1
 //@   ghost nkill int = 0
 //@   ghost nkill0 int = 0
-//@   at assign running#2: set nkill0 = nkill
+//@   at assign running#1: set nkill0 = nkill
 //@   calls Scheduler.kill#*: set nkill = nkill + 1
 
 // kill / cancel / requeue act only while holding the per-container operation lock.
